@@ -116,9 +116,25 @@ def _generated_deck():
     s2 = prs.slides.add_slide(prs.slide_layouts[6])
     sh.add_shape(MSO_SHAPE.OVAL, 0, 0, 10, 10).click_action.target_slide = s2
     prs.core_properties.title = "t"
+    # a second picture whose stored bytes are not of the declared type (JPEG bytes in image/png part, as some producers leave them):
+    # the bytes are swapped in the saved zip, the declaration stays
+    from PIL import Image as _PIL
+
+    marker = io.BytesIO()
+    _PIL.new("RGB", (3, 2), (1, 200, 3)).save(marker, "PNG")
+    pic2 = sh.add_picture(io.BytesIO(marker.getvalue()), 0, 0)
+    name2 = str(pic2.part.related_part(pic2._pic.blip_rId).partname)[1:]
+    jpg = io.BytesIO()
+    _PIL.new("RGB", (3, 2), (1, 200, 3)).save(jpg, "JPEG")
     buf = io.BytesIO()
     prs.save(buf)
-    return buf.getvalue()
+    import zipfile
+
+    out = io.BytesIO()
+    with zipfile.ZipFile(io.BytesIO(buf.getvalue())) as zin, zipfile.ZipFile(out, "w", zipfile.ZIP_DEFLATED) as zout:
+        for info in zin.infolist():
+            zout.writestr(info, jpg.getvalue() if info.filename == name2 else zin.read(info.filename))
+    return out.getvalue()
 
 
 def _sources(tier):
@@ -219,7 +235,9 @@ def _fingerprint(prs):
     parts = {}
     for p in pkg.iter_parts():
         el = getattr(p, "_element", None)
-        parts[str(p.partname)] = hashlib.sha1(_canon(el) if el is not None else p.blob).hexdigest()
+        # the declared content type is part of what is saved ([Content_Types].xml); read without going through the caching property
+        ct = getattr(p, "_content_type", None) or p.content_type
+        parts[str(p.partname)] = hashlib.sha1(_canon(el) if el is not None else p.blob).hexdigest() + "|" + str(ct)
     rels = sorted((str(getattr(r._target, "partname", r._target)), r.reltype, r.rId) for r in pkg.iter_rels())
     return parts, rels
 
@@ -540,7 +558,7 @@ def _cheap(prs):
         if el is not None:
             for x in el.iter():
                 tot += 1 + len(x.attrib) + (len(x.text) if x.text else 0)
-    return tot, len(parts), sum(1 for _ in pkg.iter_rels())
+    return tot, len(parts), sum(1 for _ in pkg.iter_rels()), tuple(getattr(p, "_content_type", None) for p in parts)
 
 
 def _locate(data, skip):
@@ -594,7 +612,7 @@ def _native_traversal(tier="quick", seed=0):
                 if el is not None:
                     for x in el.iter():
                         tot += 1 + len(x.attrib) + (len(x.text) if x.text else 0)
-            return tot, len(parts), sum(1 for _ in pkg.iter_rels())
+            return tot, len(parts), sum(1 for _ in pkg.iter_rels()), tuple(getattr(p, "_content_type", None) for p in parts)
 
         checked = {}
 
